@@ -15,4 +15,13 @@ Chain(d, piped, closed) ==
             nxt == IF k < d THEN "m:c" \o ToString(k + 1) ELSE IF closed THEN "m:c1" ELSE "leaf"
         IN IF piped THEN <<"leaf", nxt>> ELSE <<nxt>>]
 Chains == {Chain(d, p, c) : d \in 1..60, p \in BOOLEAN, c \in BOOLEAN}
+\* fan-out: every level invokes the next one twice (2^d elementary operators); the guard bounds the depth
+\* of the walk, not its work, which is only bounded by (widest body)^L
+FanNames(d) == {"m:f" \o ToString(i) : i \in 1..d}
+Fan(d) == [n \in FanNames(d) |->
+             LET k == CHOOSE i \in 1..d : n = "m:f" \o ToString(i)
+                 nxt == IF k < d THEN "m:f" \o ToString(k + 1) ELSE "leaf"
+             IN <<nxt, nxt>>]
+Fans == {Fan(d) : d \in 1..8}
+ChainsAndFans == Chains \cup Fans
 =============================================================================
